@@ -131,6 +131,7 @@ static void family(Env& env, const std::string& stage, std::vector<int> sizes) {
 }
 static Register f1("c16.family.n17n20", "C16", "structured family: 17 and 20 states, 2 labels x 9 edge templates each x 3 partitions x block preorders x EVERY output size (crosses the capacity-16 threshold of BinaryRelation)", [](Env& e) { family(e, "c16.family.n17n20", {17, 20}); });
 static Register f2("c16.family.n33n40", "C16", "structured family: 33 and 40 states (crosses 32-entry thresholds: counter rows of 31, relation capacity 32)", [](Env& e) { family(e, "c16.family.n33n40", {33, 40}); });
+static Register f4("c16.family.n65n130", "C16", "structured family: 65 and 130 states (partition grows across 64 and 128 blocks: vector<bool> word boundaries)", [](Env& e) { family(e, "c16.family.n65n130", {65, 130}); });
 static Register f3("c16.family.n65", "C16", "structured family: 65 states", [](Env& e) { family(e, "c16.family.n65", {65}); });
 
 #define REG(var, name, n, L, K, mb, dup, txt) static Register var(name, "C16", txt, [](Env& e) { body(e, name, n, L, K, mb, dup); });
